@@ -495,3 +495,27 @@ pub fn ni_line(c: &FwCase) -> Option<String> {
     }
     Some("ni ok\n".into())
 }
+
+/// The input lines of a case, without running anything (used to report a case that crashes the process).
+pub fn inputs_only(c: &FwCase) -> String {
+    let mut out = String::new();
+    let _ = writeln!(out, "case {} {}", c.id, c.kind);
+    for m in &c.machines {
+        let _ = writeln!(out, "m {}", hex(&genm::machine_bytes(m)));
+    }
+    let _ = writeln!(out, "rng {} {}", c.rng_seed, c.extreme);
+    if !c.prefix.is_empty() {
+        let ws: Vec<String> = c.prefix.iter().map(|w| format!("{:016x}", w)).collect();
+        let _ = writeln!(out, "words {}", ws.join(" "));
+    }
+    if let Some(p) = c.ni {
+        let _ = writeln!(out, "probe {}", p);
+    }
+    let _ = writeln!(out, "new {:016x} {:016x} {}", c.fp.to_bits(), c.fb.to_bits(), c.t0);
+    for (t, evs) in &c.calls {
+        let evs_s: Vec<String> = evs.iter().map(ev_str).collect();
+        let _ = writeln!(out, "call {} {}", t, evs_s.join(" "));
+    }
+    let _ = writeln!(out, "end");
+    out
+}
